@@ -308,6 +308,10 @@ def instantiate(unit, drops, extracted):
             sliceeq = False
             tryinto = False
             dropbody = []
+            strlen = None
+            strprefix = False
+            rpos = None
+            prooftop = None
             for p in parts[2:]:
                 if p.startswith('nth='):
                     nth = int(p[4:])
@@ -339,6 +343,14 @@ def instantiate(unit, drops, extracted):
                     inject = p[len('inject='):]
                 elif p.startswith('drop-body='):
                     dropbody = p[len('drop-body='):].split(',')
+                elif p.startswith('str-len='):
+                    strlen = p[len('str-len='):]
+                elif p == 'str-prefix':
+                    strprefix = True
+                elif p.startswith('rposition='):
+                    rpos = p[len('rposition='):].split(',')
+                elif p.startswith('proof-top='):
+                    prooftop = p[len('proof-top='):]
             item = extract.extract(resolve(path), rx, drops, nth=nth, raw=raw)
             if deriveonly:
                 item, k = re.subn(r'(?m)^(\s*)#\[derive\([^)]*\)\]\s*\n', r'\1#[derive(%s)]\n' % deriveonly, item)
@@ -401,6 +413,35 @@ def instantiate(unit, drops, extracted):
                     drops[kk] = drops.get(kk, 0) + k
             for fn in dropbody:
                 item = drop_fn_body(item, fn, drops)
+            if strlen:
+                item, k = re.subn(r'\b%s\.len\(\)' % re.escape(strlen), '%s.as_bytes().len()' % strlen, item)
+                if not k:
+                    raise extract.AnchorLost('no `%s.len()` left to rewrite (str-len)' % strlen)
+                kk = ('rewrote `%s.len()` on a `&str` into `%s.as_bytes().len()` (the definition of `str::len` in core; vstd specifies '
+                      '`str::as_bytes` and slice `len`, its `str::len` says nothing about bytes)' % (strlen, strlen))
+                drops[kk] = drops.get(kk, 0) + k
+            if strprefix:
+                item, k = re.subn(r'&(\w+)\[\.\.(\w+)\]', r'str_prefix__(\1, \2)', item)
+                if not k:
+                    raise extract.AnchorLost('no `&s[..k]` left to rewrite (str-prefix)')
+                kk = ('rewrote `&s[..k]` on a `&str` into the trusted wrapper `str_prefix__(s, k)` whose precondition is core\'s panic condition '
+                      '(k <= len and k is a character boundary) — so "the slicing cannot panic" is a proved obligation')
+                drops[kk] = drops.get(kk, 0) + k
+            if rpos:
+                # `let V = X .iter() .rposition(|b| P);`  ==>  closure bound to a name and annotated with its contract, call through the
+                # trusted wrapper `slice_rposition__(&X, pred__)` (contract of core's `Iterator::rposition` on a slice iterator), ghost proof after it
+                rm = re.search(r'(?m)^(\s*)let (\w+) = ([^;]*?)\s*\.iter\(\)\s*\.rposition\(\|(\w+)\| ([^;]*?)\);[ \t]*\n', item, flags=re.S)
+                if not rm:
+                    raise extract.AnchorLost('`let v = X.iter().rposition(|b| P);` not found (rposition)')
+                ind = rm.group(1)
+                new = (ind + 'let pred__ = |%s: &u8| -> (r: bool)\n' % rm.group(4) + injects[rpos[0]].rstrip() + '\n' + ind + '{ ' + rm.group(5).strip() + ' };\n'
+                       + ind + 'let %s = slice_rposition__(&%s, pred__);\n' % (rm.group(2), rm.group(3).strip())
+                       + injects[rpos[1]].rstrip() + '\n')
+                item = item[:rm.start()] + new + item[rm.end():]
+                kk = ('rewrote `X.iter().rposition(|b| P)` into `slice_rposition__(&X, pred__)` with `pred__ = |b: &u8| -> (r: bool) ensures .. { P }` bound '
+                      'to a name (trusted wrapper carrying the contract of core\'s `rposition` on a slice iterator; the closure body P is the real one and is '
+                      'checked against the injected `ensures`), followed by a ghost `proof { }` block')
+                drops[kk] = drops.get(kk, 0) + 1
             if inject:
                 k = item.index('{')
                 item = item[:k + 1] + '\n' + injects[inject] + item[k + 1:]
@@ -418,6 +459,25 @@ def instantiate(unit, drops, extracted):
                 item = apply_contract(item, fname, contracts[label or fname])
             if strip:
                 item = extract.strip_macro_calls(item, strip, drops)
+            if prooftop:
+                fname, _, label = prooftop.partition(':')
+                m = re.search(r'\bfn\s+%s\s*(<[^{(]*>)?\s*\(' % re.escape(fname), item)
+                if not m:
+                    raise extract.AnchorLost('function %s not found (proof-top)' % fname)
+                i = m.end() - 1
+                depth = 0
+                while i < len(item):
+                    c = item[i]
+                    if c in '([':
+                        depth += 1
+                    elif c in ')]':
+                        depth -= 1
+                    elif c == '{' and depth == 0:
+                        break
+                    i += 1
+                item = item[:i + 1] + '\n' + injects[label].rstrip() + item[i + 1:]
+                kk = 'ghost `proof { }` block inserted at the top of a function body (annotation only)'
+                drops[kk] = drops.get(kk, 0) + 1
             out.append(item)
             extracted.append({'from': path, 'item': rx, 'lines': item.count('\n') + 1,
                               'contracts_attached_to': cons})
